@@ -2,8 +2,10 @@ package main
 
 import (
 	"fmt"
+	"net/http"
 	"strconv"
 	"sync"
+	"time"
 
 	"verifh/hx"
 )
@@ -19,6 +21,9 @@ type ans struct {
 	Size   int    `json:"size,omitempty"`
 	SMax   bool   `json:"s_maxage,omitempty"` // lifetime given as s-maxage (with a contradicting max-age)
 	ETag   string `json:"etag,omitempty"`     // the same validator on every version although the body changes
+	// DateSkew: the origin's own Date header is this many seconds away from the real clock (a skewed or
+	// replaying origin); 0 = the Date Go's server writes. It has no bearing on the lifetime.
+	DateSkew int `json:"origin_date_skew_seconds,omitempty"`
 }
 
 // lifetime the lifetime the reference expects pike to compute (0 = not storable)
@@ -103,6 +108,9 @@ func replyOf(f *hx.Fetch, a ans) *hx.Reply {
 		}
 		if a.ETag != "" {
 			rep.Header = append(rep.Header, [2]string{"ETag", a.ETag})
+		}
+		if a.DateSkew != 0 {
+			rep.Header = append(rep.Header, [2]string{"Date", time.Now().Add(time.Duration(a.DateSkew) * time.Second).UTC().Format(http.TimeFormat)})
 		}
 	case "nocache":
 		rep.Header = append(rep.Header, [2]string{"Cache-Control", "no-cache"})
@@ -225,7 +233,7 @@ func (m *entryModel) burstCheck(now int64, results []*hx.Result, rawFetches []*h
 			if res.Err != nil {
 				return "request_failed", "request did not complete: " + res.Err.Error()
 			}
-			return "request_failed", fmt.Sprintf("error status %d although its upstream contact did not fail", res.Status)
+			return "request_failed", fmt.Sprintf("error status %d although its upstream contact did not fail (answer: %.200q)", res.Status, res.Raw)
 		}
 	}
 	if m.CheckBodyVersion {
